@@ -12,6 +12,7 @@ EXTENDS Core, Json
 
 CONSTANTS Depth,      \* scenario length
           KindBag,    \* sequence of input kinds to draw from (duplicates are weights)
+          Scripted,   \* TRUE: KindBag is a script - the n-th input is of the n-th kind (parameters stay random)
           Mode        \* "" | "hist" (realms with event history) | "authz" (realms with an authorizer)
 
 VARIABLE h            \* the inputs so far
@@ -67,7 +68,7 @@ H0 == [first |-> "HELLO", realm |-> "ok", roles |-> "ok", methods |-> <<>>, auth
 A0 == [kind |-> "", key |-> "", ch |-> ""]
 
 In0 == [op |-> "", s |-> "", req |-> 0, uri |-> <<>>, tag |-> "", id |-> 0, ms |-> 0, how |-> "",
-        args |-> <<>>, uri2 |-> <<>>, f |-> F0, o |-> O0, prog |-> <<>>, join |-> [authid |-> "", color |-> "", feats |-> <<>>, local |-> TRUE, q |-> 0],
+        args |-> <<>>, uri2 |-> <<>>, f |-> F0, o |-> O0, prog |-> <<>>, join |-> [authid |-> "", color |-> "", feats |-> <<>>, local |-> TRUE, q |-> 0, tr |-> ""],
         hello |-> H0, resp |-> A0]
 
 N      == Len(h) + 1
@@ -97,11 +98,12 @@ GJoin ==
   \E n \in 1..Len(Names) :
     /\ Names[n] \notin DOMAIN sess
     /\ \A m \in 1..(n-1) : Names[m] \in DOMAIN sess
-    /\ \E local \in (IF Mode = "disc" THEN W(<<FALSE, FALSE, FALSE, TRUE>>) ELSE R({TRUE, FALSE})), color \in R({"red", "blue", ""}), feats \in R(FeatSets),
+    /\ \E local \in (IF Mode = "disc" THEN W(<<FALSE, FALSE, FALSE, TRUE>>) ELSE R({TRUE, FALSE})), color \in R({"red", "blue", ""}),
+          feats \in (IF Mode = "stall" THEN W(<<FeatAll, FeatAll, <<"callee:call_canceling">>, <<>>>>) ELSE R(FeatSets)),
           lid \in R({"u1", "u2"}), rid \in R({"alice", "bob", "carol"}) :
-       \E qs \in W(IF Mode = "stall" THEN <<0, 1, 2, 2>> ELSE <<0>>) :
+       \E qs \in W(IF Mode = "stall" THEN <<0, 1, 1, 2, 2>> ELSE <<0>>) :
        LET s == Names[n]
-           j == [authid |-> IF local THEN lid ELSE rid, color |-> color, feats |-> feats, local |-> local, q |-> qs]
+           j == [authid |-> IF local THEN lid ELSE rid, color |-> color, feats |-> feats, local |-> local, q |-> qs, tr |-> ""]
            i == [In0 EXCEPT !.op = "join", !.s = s, !.join = j]
        IN Step(i, JoinFx(Cur, s, j, NextId(used.sid)))
 
@@ -188,9 +190,13 @@ EaSet == {<<>>, <<[a |-> "authrole", v |-> <<"trusted", "admin">>]>>, <<[a |-> "
           <<[a |-> "authid", v |-> <<"bob", "u2">>], [a |-> "color", v |-> <<"red", "blue">>]>>}
 
 GSubscribe ==
-  \E s \in J : \E bad \in R(1..6) :
+  \E pickc \in R(1..2) :
+  \E s \in R(LET callees == {x \in J : \E k \in DOMAIN regs : x \in Rng(regs[k].callees)}
+             \* (queues matter most for sessions that are served invocations)
+             IN IF Mode = "stall" /\ callees # {} /\ pickc = 1 THEN callees ELSE J) : \E bad \in R(1..6) :
   \E k \in R(IF Mode = "disc" THEN {<<U_ab, "">>, <<U_a, "prefix">>, <<U_adot, "wildcard">>}
              \* realms with event history: mostly the configured subscriptions (subscribers come and go)
+             ELSE IF Mode = "stall" /\ bad > 2 THEN {<<U_a, "prefix">>, <<U_x, "wildcard">>, <<U_ab, "">>}
              ELSE IF Mode = "hist" /\ DOMAIN hist # {} /\ bad > 2 THEN {<<kk[1], IF kk[2] = "exact" THEN "" ELSE kk[2]>> : kk \in DOMAIN hist}
              ELSE IF bad = 1 THEN BadKeys ELSE IF bad = 2 THEN MetaKeys ELSE Keys) :
     LET i == [In0 EXCEPT !.op = "subscribe", !.s = s, !.req = N, !.uri = k[1], !.o = [O0 EXCEPT !.match = k[2]]]
@@ -212,7 +218,7 @@ GPublish ==
                 \* fill the queue of a session that does not read
                 ELSE IF Mode = "stall" /\ deaf # {} /\ bad > 4 THEN deaf
                 ELSE IF bad = 1 THEN BadURIs ELSE Targets) :
-  \E kind \in (IF Mode = "disc" THEN R({7, 8}) ELSE R(1..8)), xl \in R(SidLists), el \in R(SidLists), xa \in R(XaSet), ea \in R(EaSet),
+  \E kind \in (IF Mode \in {"disc", "stall"} THEN R({7, 8}) ELSE R(1..8)), xl \in R(SidLists), el \in R(SidLists), xa \in R(XaSet), ea \in R(EaSet),
      ack \in (IF Mode = "stall" THEN {TRUE} ELSE R(BOOLEAN)), xme \in W(<<"", "", "t", "f", "f">>),
      dme \in (IF Mode = "disc" THEN W(<<TRUE, TRUE, TRUE, FALSE>>) ELSE W(<<FALSE, FALSE, TRUE>>)) :
     LET o == [O0 EXCEPT !.ack = ack, !.xme = xme, !.dme = dme,
@@ -272,7 +278,8 @@ GUnregister ==
          IN Step(i, UnregisterFx(Cur, s, N, id))
 
 GCall ==
-  \E s \in J : \E u \in R(Targets) :
+  \E s \in J : \E hit \in R(1..3) :
+  \E u \in R(LET routable == {t \in Targets : BestRegs(Cur, t) # {}} IN IF routable # {} /\ hit # 1 THEN routable ELSE Targets) :
   \E dme \in W(<<FALSE, FALSE, TRUE>>), rprog \in R(BOOLEAN), tmo \in W(<<0, 0, 1, 50, 1000>>) :
     LET o == [O0 EXCEPT !.dme = dme, !.rprog = rprog, !.tmo = tmo]
         i == [In0 EXCEPT !.op = "call", !.s = s, !.req = N, !.uri = u, !.tag = Tag, !.o = o]
@@ -296,9 +303,10 @@ InvIds(s) == {calls[c].inv : c \in {cc \in DOMAIN calls : calls[cc].callee = s}}
 \* kill-mode cancel of an own pending call (the caller then waits for the callee)
 GCancelKill ==
   LET mine == {c \in DOMAIN calls : c[1] \in J /\ ~calls[c].canceled}
-      deaf == {c \in mine : sess[calls[c].callee].stalled} IN
+      deaf == {c \in mine : sess[calls[c].callee].stalled}
+      full == {c \in deaf : ~Room(Cur, calls[c].callee)} IN
   IF mine = {} THEN GCancel
-  ELSE \E c \in R(IF deaf # {} THEN deaf ELSE mine) :
+  ELSE \E c \in R(IF full # {} THEN full ELSE IF deaf # {} THEN deaf ELSE mine) :
          LET i == [In0 EXCEPT !.op = "cancel", !.s = c[1], !.req = c[2], !.o = [O0 EXCEPT !.mode = "kill"]]
          IN Step(i, CancelFx(Cur, c[1], c[2], "kill"))
 
@@ -495,8 +503,11 @@ PubArgs  == {p \in used.pub : p < 100000} \cup {77}
 HistPubs   == {p \in UNION {{hist[k][j].pub : j \in DOMAIN hist[k]} : k \in DOMAIN hist} : p < 100000}
 HistTopics == UNION {{hist[k][j].topic : j \in DOMAIN hist[k]} : k \in DOMAIN hist}
 GGetEvents ==
-  \E s \in J : \E id \in R(IF DOMAIN hist # {} THEN {subs[k].id : k \in DOMAIN hist} \cup {NextId(used.sub) + 3} ELSE SubArgs) :
-  \E kind \in R(1..20), t \in R(EntryTimes), dt \in R({-1, 0, 1}), lim \in R(1..3), pick \in R(1..4) :
+  \E s \in J : \E full \in R(1..3) :
+  \E id \in R(LET nonempty == {subs[k].id : k \in {kk \in DOMAIN hist : hist[kk] # <<>>}}
+              IN IF nonempty # {} /\ full # 1 THEN nonempty
+                 ELSE IF DOMAIN hist # {} THEN {subs[k].id : k \in DOMAIN hist} \cup {NextId(used.sub) + 3} ELSE SubArgs) :
+  \E kind \in W(<<1, 2, 3, 4, 5, 6, 7, 8, 9, 10, 11, 12, 12, 13, 13, 14, 14, 15, 15, 16, 17, 18, 19, 20>>), t \in R(EntryTimes), dt \in R({-1, 0, 1}), lim \in R(1..3), pick \in R(1..4) :
   \E pb \in R(IF HistPubs # {} /\ pick # 1 THEN HistPubs ELSE PubArgs), pb2 \in R(IF HistPubs # {} /\ pick # 1 THEN HistPubs ELSE PubArgs),
      u \in R(IF HistTopics # {} /\ pick # 2 THEN HistTopics ELSE Targets) :
     LET tt == IF t + dt > 0 THEN t + dt ELSE 1
@@ -538,6 +549,7 @@ GenNext ==
                    \* a kill-mode cancel is outstanding: let the callee answer soon
                    ELSE IF coin = 1 /\ (\E n \in DOMAIN KindBag : KindBag[n] = "answer")
                            /\ (\E c \in DOMAIN calls : calls[c].canceled /\ calls[c].callee \in J) THEN {"answer"}
+                   ELSE IF Scripted THEN {KindBag[(Len(h) % Len(KindBag)) + 1]}
                    ELSE W(KindBag)) :
      CASE kind = "join"   -> GJoin
        [] kind = "sub"    -> GSubscribe
